@@ -3,5 +3,6 @@ CONSTANTS
   P = 2
   J = 2
   R = 1
+  BossWorks = TRUE
 PROPERTY Termination
 CHECK_DEADLOCK FALSE
